@@ -1,7 +1,7 @@
 (* Executable correspondence (trace acceptance) + property monitors for the C10 / C11 case files.
    bit 0: the lifecycle model (Life/RunMap.v through Life/Accept.v) rejects the observed event log
    bit 1: the property monitor (Life/Mon.v) rejects it; the higher bits name the violated rules. *)
-From Verif Require Import Base.CaseCheck Life.RunMap Life.Accept Life.Mon.
+From Verif Require Import Base.CaseCheck Life.RunMap Life.Accept Life.Mon Life.Fanout.
 Local Open Scope Z_scope.
 
 Record lcase := mkLcase { lc_cfg : lcfg; lc_log : list lev }.
@@ -10,38 +10,37 @@ Record lcase := mkLcase { lc_cfg : lcfg; lc_log : list lev }.
 Definition cause_of_reason (r : reason) : cause :=
   match r with RFatal => CaFatal | _ => CaTransient end.
 
-Definition engine_cause (cf : lcfg) (hist : list bool) (lr : lastrej) (p : point) (o : outc) : option cause :=
-  match fail_of cf hist lr p o with
-  | Some k => Some (cause_of_reason (engine_tag (l_engine cf) true k))
-  | None => None
+(* the class of the error that reaches the tomb for the failures [ms] of one event ([] = none).  More than one member:
+   arch-v2, the errors.Join of the failures of one batch pass (Life/Fanout.v: fatal iff a member is fatal). *)
+Definition engine_cause (cf : lcfg) (ms : list pfail) : option cause :=
+  match ms with
+  | [] => None
+  | _ => Some (cause_of_reason (join_reason (map (engine_tag (l_engine cf) true) ms)))
   end.
 
-Fixpoint to_obs (cf : lcfg) (hist : list bool) (lr : lastrej) (log : list lev) : list obs :=
+Fixpoint to_obs (cf : lcfg) (log : list (lev * list pfail)) : list obs :=
   match log with
   | [] => []
-  | e :: t =>
+  | (e, ms) :: t =>
       match e with
-      | EvSt _ x => OStatus x :: to_obs cf (match x with Running => hist | _ => [] end) lr t
-      | EvOpen _ KSrc => OOpen :: to_obs cf [] LRNone t
+      | EvSt _ x => OStatus x :: to_obs cf t
+      | EvOpen _ KSrc => OOpen :: to_obs cf t
       | EvOpenFail c =>
           match l_engine cf, c with
-          | V1, KSrc => OOpenFail KSrc :: to_obs cf hist lr t
-          | V1, _ => OInj CaTransient :: to_obs cf hist lr t
-          | V2, _ => OOpenFail c :: to_obs cf hist lr t
+          | V1, KSrc => OOpenFail KSrc :: to_obs cf t
+          | V1, _ => OInj CaTransient :: to_obs cf t
+          | V2, _ => OOpenFail c :: to_obs cf t
           end
-      | EvTd _ KSrc => OTd :: to_obs cf hist lr t
-      | EvWrite KDst => to_obs cf (hist ++ [false]) lr t
-      | EvInj p o =>
-          let h := if is_reject p o then hist ++ [true] else hist in
-          let lr' := match p, o with PDstWrite, ONack => LRDst | PProcDo, _ => LRProc | _, _ => lr end in
-          match engine_cause cf hist lr p o with
-          | Some c => OInj c :: to_obs cf h lr' t
-          | None => to_obs cf h lr' t
+      | EvTd _ KSrc => OTd :: to_obs cf t
+      | EvInj _ _ =>
+          match engine_cause cf ms with
+          | Some c => OInj c :: to_obs cf t
+          | None => to_obs cf t
           end
-      | EvCall k id => OCall k id :: to_obs cf hist lr t
-      | EvRet _ id x => ORet id x :: to_obs cf hist lr t
-      | EvNotify x => ONotify x :: to_obs cf hist lr t
-      | _ => to_obs cf hist lr t
+      | EvCall k id => OCall k id :: to_obs cf t
+      | EvRet _ id x => ORet id x :: to_obs cf t
+      | EvNotify x => ONotify x :: to_obs cf t
+      | _ => to_obs cf t
       end
   end.
 
@@ -52,7 +51,7 @@ Definition acc_cap : nat := 300.
 
 (* false only when the model REJECTS the log (a log that was given up is not counted as a disagreement) *)
 Definition accepted (c : lcase) : bool :=
-  match accepts (model_cfg (lc_cfg c)) acc_cap (to_obs (lc_cfg c) [] LRNone (lc_log c)) with
+  match accepts (model_cfg (lc_cfg c)) acc_cap (to_obs (lc_cfg c) (annot (lc_cfg c) (lc_log c))) with
   | Some false => false
   | _ => true
   end.
@@ -65,4 +64,4 @@ Definition chk11 (c : lcase) : nat := code_of (accepted c) (mon11 (lc_log c)).
 
 (* diagnostics: where the acceptor gives up *)
 Definition where_rejected (c : lcase) : option nat :=
-  rejects_at (model_cfg (lc_cfg c)) acc_cap (to_obs (lc_cfg c) [] LRNone (lc_log c)).
+  rejects_at (model_cfg (lc_cfg c)) acc_cap (to_obs (lc_cfg c) (annot (lc_cfg c) (lc_log c))).
